@@ -48,6 +48,9 @@ pub struct Norm {
     pub want_after_tail: bool,
     /// side-car `opt=vunwrap`: rule N8e is applied in this function
     pub vunwrap: bool,
+    pub elems_field: Option<String>,
+    /// side-car `opt=extend-owned`: `.extend(E)` with an arbitrary owned array / Vec expression E -> `{ let __e = E; v.extend_from_slice(&__e) }`
+    pub extend_owned: bool,
 }
 
 fn id(s: &str) -> Ident {
@@ -311,6 +314,10 @@ fn parse_iter(e: &Expr, bare_ok: bool) -> Option<Iter> {
                 _ => None,
             }
         }
+        Expr::Reference(r) if bare_ok && r.mutability.is_some() => {
+            // `for x in &mut xs` is `xs.iter_mut()`
+            Some(Iter { src: Src::IndexMut { base: (*r.expr).clone() }, adapters: vec![] })
+        }
         Expr::Reference(r) if bare_ok && r.mutability.is_none() => {
             Some(Iter { src: Src::Index { base: (*r.expr).clone(), by_ref: true }, adapters: vec![] })
         }
@@ -399,7 +406,7 @@ impl<'a> Visit<'a> for HasReturn {
 
 impl Norm {
     pub fn new(from_fn: BTreeMap<usize, usize>) -> Self {
-        Norm { rules: vec![], dropped: vec![], errors: vec![], nloops: 0, nrets: 0, hoisted: vec![], map_kind: None, tmp: 0, hint: String::new(), names: BTreeMap::new(), let_ctx: None, out_ty: None, result_collect: None, result_collect_done: false, collect_as_result: false, from_fn, from_fn_idx: 0, via: vec![], drain: vec![], want_after_tail: false, vunwrap: false }
+        Norm { rules: vec![], dropped: vec![], errors: vec![], nloops: 0, nrets: 0, hoisted: vec![], map_kind: None, tmp: 0, hint: String::new(), names: BTreeMap::new(), let_ctx: None, out_ty: None, result_collect: None, result_collect_done: false, collect_as_result: false, from_fn, from_fn_idx: 0, via: vec![], drain: vec![], want_after_tail: false, vunwrap: false, elems_field: None, extend_owned: false }
     }
 
     fn rule(&mut self, r: &str, sp: Span, note: &str) {
@@ -586,16 +593,33 @@ impl Norm {
                             if let Expr::Path(p) = &*u.expr { if p.path.is_ident(&self.v) { *e = self.repl.clone(); return; } }
                         }
                     }
+                    // `binder.field` is `(*binder).field` (auto-deref)
+                    if let Expr::Field(f) = e {
+                        if let Expr::Path(p) = &*f.base { if p.path.is_ident(&self.v) { *f.base = self.repl.clone(); return; } }
+                    }
                     if let Expr::Path(p) = e { if p.path.is_ident(&self.v) { self.bad = true; } }
                     visit_mut::visit_expr_mut(self, e);
                 }
             }
-            let mut sub = Sub { v: vname, repl: parse_quote!(#base[#idx]), bad: false };
+            // side-car `opt=elems:<field>`: the (model) container keeps its elements in that field
+            let repl: Expr = match &self.elems_field { Some(fld) => { let fld = id(fld); parse_quote!(#base.#fld[#idx]) } None => parse_quote!(#base[#idx]) };
+            let mut sub = Sub { v: vname, repl, bad: false };
             let mut body = body;
             for st in body.iter_mut() { sub.visit_stmt_mut(st); }
             if sub.bad { self.errors.push("iter_mut binder used other than as `*binder`".into()); return None; }
             self.rule("N2", sp, "for over iter_mut -> index loop, `*v` -> xs[i]");
             let bind: Vec<Stmt> = match ipat { Some(ip) => vec![parse_quote!(let #ip = #idx;)], None => vec![] };
+            if self.elems_field.is_some() {
+                // the container is mutated inside the loop: its length is read once, as the iterator does
+                let hi = self.fresh("hi");
+                pre.push(parse_quote!(let #hi = #base.len();));
+                pre.push(parse_quote!(for #idx in 0..#hi {
+                    #(#bind)*
+                    __vx_loop_body_here!();
+                    #(#body)*
+                }));
+                return Some(pre);
+            }
             pre.push(parse_quote!(for #idx in 0..#base.len() {
                 #(#bind)*
                 __vx_loop_body_here!();
@@ -1598,6 +1622,13 @@ impl<'a> VisitMut for Rewriter<'a> {
                                     replacement = Some(parse_quote!(#r.extend_from_slice(&#base)));
                                 }
                             }
+                        }
+                        if replacement.is_none() && self.n.extend_owned {
+                            // N4d: an owned array / Vec value (by-value IntoIterator yields its elements in order)
+                            let r = &m.receiver; let a = &m.args[0];
+                            let a: Expr = match strip_paren(a) { Expr::Reference(rf) if rf.mutability.is_none() => (*rf.expr).clone(), o => o.clone() };
+                            self.n.rule("N4", sp, ".extend(owned array / Vec expression) -> bind + .extend_from_slice(&tmp)");
+                            replacement = Some(parse_quote!({ let __ext = #a; #r.extend_from_slice(&__ext) }));
                         }
                         if replacement.is_none() {
                             self.n.errors.push(format!("unsupported .extend() argument at source line {}", sp.start().line));
